@@ -112,8 +112,8 @@ def setAt {α} (l : List (List α)) (i : Nat) (v : List α) : List (List α) :=
   let l' := l ++ List.replicate (i + 1 - l.length) []
   l'.set i v
 
-def stageProc (swr : Swr) (o : Opt) (nodes : List Node) (i : Nat) : List Node :=
-  dedupe <| nodes.flatMap fun n =>
+def stageProc (swr : Swr) (o : Opt) (viable : CS → Bool) (nodes : List Node) (i : Nat) : List Node :=
+  dedupe <| List.filter (fun n => viable n.c) <| nodes.flatMap fun n =>
     match n.c.shards[i]? with
     | none => [n]
     | some s =>
@@ -126,8 +126,8 @@ def stageProc (swr : Swr) (o : Opt) (nodes : List Node) (i : Nat) : List Node :=
                    sc := { n.sc with allevProc := setAt n.sc.allevProc i ord } }
       else [n]
 
-def stageHead (swr : Swr) (o : Opt) (nodes : List Node) (i : Nat) : List Node :=
-  dedupe <| nodes.flatMap fun n =>
+def stageHead (swr : Swr) (o : Opt) (viable : CS → Bool) (nodes : List Node) (i : Nat) : List Node :=
+  dedupe <| List.filter (fun n => viable n.c) <| nodes.flatMap fun n =>
     match n.c.shards[i]? with
     | none => [n]
     | some s =>
@@ -151,7 +151,7 @@ structure ANode where
 
 def sameA (a b : ANode) : Bool := sameState a.n b.n && a.rest == b.rest && a.need2 == b.need2
 
-def stageAssign (o : Opt) (scr : List Hash) (glob : Hash → St) (fuel : Nat) (nodes : List ANode) : List ANode :=
+def stageAssign (o : Opt) (viable : CS → Bool) (scr : List Hash) (glob : Hash → St) (fuel : Nat) (nodes : List ANode) : List ANode :=
   match fuel with
   | 0 => nodes
   | fuel + 1 =>
@@ -170,11 +170,11 @@ def stageAssign (o : Opt) (scr : List Hash) (glob : Hash → St) (fuel : Nat) (n
           { n := { a.n with c := c', sc := { a.n.sc with assign := a.n.sc.assign ++ [h] },
                             picks := if used then a.n.picks ++ [p] else a.n.picks },
             rest := rest', need2 := nd }
-    let ded := next.foldl (fun acc n => if acc.any (sameA n) then acc else acc ++ [n]) []
-    stageAssign o scr glob fuel ded
+    let ded := (next.filter fun a => viable a.n.c).foldl (fun acc n => if acc.any (sameA n) then acc else acc ++ [n]) []
+    stageAssign o viable scr glob fuel ded
 
 /-- scale-down: ND version of `sdLoop` -/
-def stageDown (o : Opt) (fuel : Nat) (k : Nat) (nodes : List Node) : List Node :=
+def stageDown (o : Opt) (viable : CS → Bool) (fuel : Nat) (k : Nat) (nodes : List Node) : List Node :=
   match fuel, k with
   | 0, _ => nodes
   | _, 0 => nodes
@@ -206,12 +206,12 @@ def stageDown (o : Opt) (fuel : Nat) (k : Nat) (nodes : List Node) : List Node :
                                          becomeIdle := setAt n.sc.becomeIdle (k + 1) ord2 },
                        picks := if ok then [] else [1] }
         stopNodes ++ goNodes
-    let ded := (next ++ done).foldl (fun acc n =>
+    let ded := ((next ++ done).filter fun n => viable n.c).foldl (fun acc n =>
       if acc.any (fun m => sameState n m && n.picks == m.picks) then acc else acc ++ [n]) []
-    stageDown o fuel k ded
+    stageDown o viable fuel k ded
 
 /-- all candidate schedules, by stages -/
-def candidatesScheds (swr : Swr) (inp : Input) : List Sched :=
+def candidatesScheds (swr : Swr) (inp : Input) (viable : CS → Bool := fun _ => true) : List Sched :=
   let o := inp.opt
   let infos := inp.probes.map getInfo
   let ss0 := infos.map (·.1)
@@ -223,20 +223,20 @@ def candidatesScheds (swr : Swr) (inp : Input) : List Sched :=
   let n0 : Node := { c := { shards := ss1 }, need := {}, sc := {} }
   let afterAllev : List Node :=
     if Gen.allevDisabled o then [n0] else
-    let a := idx.foldl (stageProc swr o) [n0]
-    if Gen.headEnabled o then idx.foldl (stageHead swr o) a else a
+    let a := idx.foldl (stageProc swr o viable) [n0]
+    if Gen.headEnabled o then idx.foldl (stageHead swr o viable) a else a
   let afterAssign : List Node := afterAllev.flatMap fun n =>
     let scr := scrapingSetOf n.c.shards
     let elig := inp.active.eraseDups.filter fun h =>
       !scr.contains h && !Gen.assignSkip (glob h) && !Gen.tooBig o (glob h)
-    let res := stageAssign o scr glob (elig.length + 1) [{ n := { n with picks := [] }, rest := elig, need2 := {} }]
+    let res := stageAssign o viable scr glob (elig.length + 1) [{ n := { n with picks := [] }, rest := elig, need2 := {} }]
     res.map fun a => { a.n with need := spaceAdd n.need a.need2, sc := { a.n.sc with picks := a.n.picks } }
   let final : List Node := afterAssign.flatMap fun n =>
     if n.c.crashed || divCrash o n.need then [n] else
     if Gen.needUp (Gen.spaceIsZero n.need) then [n] else
     if Gen.scaleDownOn o then
       let stop := removableSuffix n.c.shards n.c.shards.length
-      stageDown o (stop + 1) (stop - 1) [{ n with picks := [] }]
+      stageDown o viable (stop + 1) (stop - 1) [{ n with picks := [] }]
     else [n]
   final.map (·.sc)
 
